@@ -35,9 +35,9 @@ func fresh(x any) bool                           { return true }
 // The writer's text is the result as it stands, in every configuration: nothing is trimmed, split or joined after the
 // mapper has recorded generated positions (C08) and nothing reaches into multi-line literals (C07).
 //@ func (c *Compiler) Compile(program)
-//@   props C14 C06 C08 C01 C11
+//@   props C14 C06 C08 C01 C11 C03 C07
 //@   requires [program] program != nil
-//@   atcall ast:(*Program).WriteTo [writer.config@C06,C14] arg_cw != nil && fresh(arg_cw) && arg_cw.PrettyPrint == c.prettyPrint && arg_cw.IndentString == c.prettyPrintOptions.IndentString && arg_cw.WriteSemicolons == c.prettyPrintOptions.WriteSemicolons && arg_cw.IndentLevel == 0 && (arg_cw.Mapper != nil) == c.generateSourceMap && ast.WriterEmpty(arg_cw)
+//@   atcall ast:(*Program).WriteTo [writer.config@C06,C14,C03] arg_cw != nil && fresh(arg_cw) && arg_cw.PrettyPrint == c.prettyPrint && arg_cw.IndentString == c.prettyPrintOptions.IndentString && arg_cw.WriteSemicolons == c.prettyPrintOptions.WriteSemicolons && arg_cw.IndentLevel == 0 && (arg_cw.Mapper != nil) == c.generateSourceMap && ast.WriterEmpty(arg_cw)
 //@   atcall ast:(*Program).WriteTo [writer.mapper@C08,C14] arg_cw.Mapper == nil || fresh(arg_cw.Mapper)
 //@   ensures [once@C01] ncalls("(*Program).WriteTo") == 1 && callArg[*ast.Program]("(*Program).WriteTo", 0, 0) == program
 //@   ensures [code@C14,C01,C06,C08,C07] ncalls("(*CodeWriter).String") == 1 && result.Code == callResult[string]("(*CodeWriter).String", 0)
